@@ -36,7 +36,12 @@ func init() {
 // lists of up to 14 entries without a repeated tag possible
 var tags = []ap.LangRef{ap.NilLangRef, "en", "fr", "", "de", "en-US", "EN", "zh-Hans", "ast", "es", "it", "pt-BR", "nl", "ja"}
 
-var texts = []string{"", "a", "b", "hello", "héllo wörld", "line\\nbreak", "{\"k\":\"v\"}", "-", "<p>x</p>", "é\U0001F600"}
+var texts = []string{"", "a", "b", "hello", "héllo wörld", "line\\nbreak", "{\"k\":\"v\"}", "-", "<p>x</p>", "é\U0001F600",
+	"HELLO", // differs from "hello" in case only
+	longText + "1", longText + "2", // long texts that differ in their last byte only
+}
+
+var longText = strings.Repeat("0123456789abcdef", 20)
 
 type pair struct {
 	tag  ap.LangRef
@@ -113,6 +118,11 @@ func (ts *textSource) draw(c *core.Ctx, n ap.NaturalLanguageValues, nTags, nText
 			c.Probe("same_slice_passed_twice")
 			return ts.last
 		}
+	}
+	if t.Bool(1, 24) {
+		// a nil text (as opposed to an empty one)
+		ts.last = nil
+		return nil
 	}
 	v := drawText(t, nTexts)
 	ts.last = v
